@@ -102,6 +102,8 @@ type Engine struct {
 	desNow      int64
 	desTimers   []*xchan
 	TimersFired int
+	hangKF      string
+	hangRegion  bool
 	pathNondet  bool // the path took a scheduler / select decision the native run cannot be forced into
 
 	// results
@@ -778,6 +780,7 @@ func (e *Engine) resetRun() {
 	e.reachedNow = e.reachedNow[:0]
 	e.envChoice = false
 	e.pathNondet = false
+	e.hangKF, e.hangRegion = "", false
 	e.desNow = 0
 	e.desTimers = nil
 	e.pending = nil
